@@ -758,7 +758,7 @@ impl Tester {
 
 const SKIP_KEYS: [&str; 10] = ["sched", "scenario", "property", "run_index", "run_seed", "base_seed", "tier", "subscriber", "decisions", "trace"];
 
-const NO_SHRINK_INT_KEYS: [&str; 8] = ["obj", "objs", "id", "slot", "tag", "thread", "victim", "slow"];
+const NO_SHRINK_INT_KEYS: [&str; 10] = ["obj", "objs", "id", "slot", "tag", "thread", "victim", "slow", "capacity", "target"];
 
 fn collect_paths(v: &Value, path: &mut Vec<String>, arrays: &mut Vec<Vec<String>>, ints: &mut Vec<Vec<String>>, top: bool) {
     match v {
